@@ -194,7 +194,7 @@ unusual (int bx, int by)
 static void
 scan (const int *a)
 {
-    long long scanned = 0, selected = 0, control = 0, structural = 0;
+    long long scanned = 0, selected = 0, control = 0, structural = 0, huge = 0;
     int rk, sk, bits, sc;
     char name[96];
     signal (SIGSEGV, scan_crash); signal (SIGBUS, scan_crash); signal (SIGABRT, scan_crash);
@@ -216,6 +216,11 @@ scan (const int *a)
 		    alarm (0);
 		    cur_valid = 0;
 		    why = unusual (bx, by);
+		    /* tables with very large coefficients are selected too, but a change that makes (nearly) every table such a
+		     * table must not flood the trace: up to 1.5 million logged coefficients of them per scan (more than the
+		     * unchanged library produces) are evidence enough, the rest count as not judged */
+		    if (why == 8 && (huge += n_values) > 1500000)
+			why = 0;
 		    ctl = a[10] > 0 && (scanned % a[10]) == a[11] % a[10];
 		    if (why || ctl)
 		    {
